@@ -6,6 +6,8 @@
 -/
 import WmModel.GoDelay
 import WmModel.Gen.DelayBody
+import WmModel.GoMetrics
+import WmModel.Gen.MetricsBody
 namespace Wm.GoDelay
 open Wm.Decor
 
@@ -35,3 +37,29 @@ theorem extracted_publish_shapes :
   constructor <;> rfl
 
 end Wm.GoDelay
+
+namespace Wm.GoMetrics
+open Wm.Decor
+
+/-- the body of `PublisherPrometheusMetricsDecorator.Publish` extracted from the current source, interpreted over any
+    wrapped publisher `k`, is the metrics layer of the model (which `publish_metrics_eq` identifies with
+    `Wm.Decor.publish` on `.metrics :: rest`): empty batch forwarded unobserved; context of the first message captured
+    BEFORE the marks are set; every message marked; one inner call; observed in the deferred function unless the
+    captured context was marked, with `success` from the returned error -/
+theorem extracted_metricsPublish_eq_model (name : String) (k : List Msg → PWorld → Res) (ms : List Msg) (w : PWorld) :
+    execP name k w Gen.metricsPublishBody { ms := ms } = some (metricsLayer name k ms w) := by
+  cases ms with
+  | nil => simp [Gen.metricsPublishBody, execP, finish, metricsLayer]
+  | cons m0 tl =>
+    by_cases hm : m0.pubMark
+    · simp [Gen.metricsPublishBody, execP, finish, runDeferred, metricsLayer, hm]
+    · simp [Gen.metricsPublishBody, execP, finish, runDeferred, metricsLayer, hm]
+
+/-- the function returned by `HandlerPrometheusMetricsMiddleware.Middleware`, extracted from the current source and
+    interpreted for each way the wrapped handler can end (a panic unwinds through the deferred function): exactly one
+    observation, `success` iff the handler returned nil without panicking -/
+theorem extracted_handler_eq_model (h : String) (o : Outcome) :
+    execH h o Gen.handlerBody {} = some [handlerObs h o] := by
+  cases o <;> simp [Gen.handlerBody, execH, finishH, runHDefer, handlerObs]
+
+end Wm.GoMetrics
